@@ -33,6 +33,11 @@ class Sym:
         m = self.methods.get("__str__")
         return m() if m is not None else self.name
 
+    def __bool__(self):
+        # builtins applied to modelled objects (any(), all(), filter(None, ...)) see the object's own truth value
+        m = self.methods.get("__bool__")
+        return bool(m()) if m is not None else True
+
 
 SAFE_METHODS = {
     list: {"append", "extend", "insert", "pop", "index", "copy", "count", "reverse"},
